@@ -16,6 +16,7 @@ import (
 // cmdFacts is a development aid: print the must-hold facts at every sink of a kind in the
 // functions whose name contains -fn.
 func cmdFacts(args []string) int {
+	loadPinnedParams("/verif")
 	fs := flag.NewFlagSet("facts", flag.ExitOnError)
 	repo := fs.String("repo", "/repo", "")
 	mod := fs.String("mod", "node", "node|explorer-backend")
@@ -27,10 +28,17 @@ func cmdFacts(args []string) int {
 	if *mod != "node" {
 		pats = []string{"./...", "github.com/alephium/wormhole-fork/node/pkg/vaa", "github.com/alephium/wormhole-fork/node/pkg/processor"}
 	}
-	p, err := load.Load(load.Options{Dir: filepath.Join(*repo, *mod), Patterns: pats})
+	var reviewed func(string) bool
+	if len(facts.PinnedFuncs) > 0 {
+		reviewed = func(n string) bool { return facts.PinnedFuncs[n] }
+	}
+	p, err := load.Load(load.Options{Dir: filepath.Join(*repo, *mod), Patterns: pats, Reviewed: reviewed})
 	if err != nil {
 		fmt.Fprintln(os.Stderr, err)
 		return 2
+	}
+	if len(p.InlinedSites) > 0 || p.InlineNote != "" {
+		fmt.Println("inlined:", p.InlinedSites, "skipped:", p.InlineSkipped, p.InlineNote)
 	}
 	fmt.Printf("loaded %d roots, %d visited, errs %v in %v\n", len(p.Roots), p.Visited, p.ErrPkgs, p.LoadTime)
 	for _, f := range p.SrcFuncs("") {
